@@ -1,6 +1,13 @@
 """C19 — workload and cluster descriptions are instantiated faithfully."""
 import core
-from core import gz, glist
+from core import glist
+
+
+def gz(n):
+    """Z literal; the generated case files open Z_scope, so no %Z annotation is needed (faster to parse)."""
+    n = int(n)
+    return "(%d)" % n if n < 0 else "%d" % n
+
 
 FILES = ["workload/jobs.py", "workload/workload.py", "utils.py", "data/workload_loader.py", "data/worker_loader.py",
          "workload/graph.py", "workload/profile.py", "workload/strategy.py", "workload/resource.py"]
@@ -400,7 +407,9 @@ def gen_loader_case(rng, forced_policy=None):
         if rng.random() < 0.7:
             g["start"] = rng.choice([0, 0, 5, 100, 1234, 10 ** 6])
         if pol in ("fixed", "periodic") and rng.random() < 0.97:
-            g["period"] = rng.choice([0, 1, 10, 100, 333, 1000]) if pol == "fixed" else 2 ** rng.randint(59, 62)
+            g["period"] = rng.choice([0, 1, 10, 100, 333, 1000]) if pol == "fixed" else rng.choice([100, 333, 1000, 250, 100, 0])
+        if pol == "periodic" and "start" in g:
+            g["start"] = rng.choice([0, 5, 100])
         if pol in ("fixed", "poisson", "gamma", "closed_loop") and rng.random() < 0.97:
             g["invocations"] = rng.choice([0, 1, 2, 2, 3, 4]) if rng.random() < 0.3 else rng.choice([1, 2, 3])
         if pol in ("poisson", "gamma") and rng.random() < 0.97:
@@ -420,7 +429,11 @@ def gen_loader_case(rng, forced_policy=None):
     rf = None
     if rng.random() < 0.6:
         rf = {"rate": 0.0, "coef": 0.0, "period": 0, "inv": 0, "unique": False, "repl": 1, "slo": -1, "minb": 0,
-              "maxb": 2 ** 63 - 1}
+              "maxb": 2 ** 63 - 1, "timeout": 2 ** 63 - 1}
+        pers = [g for g in graphs if g.get("release_policy") == "periodic"]
+        if pers:      # a finite horizon: a few periods after the latest start
+            rf["timeout"] = max(g.get("start", 0) for g in pers) + \
+                rng.randint(0, 3) * min([g["period"] for g in pers if g.get("period")] or [1]) + rng.randint(0, 2)
         if rng.random() < 0.2:
             rf["rate"] = rng.choice([0.25, 0.02, 1e-17])
         if rng.random() < 0.2:
@@ -443,7 +456,7 @@ def gen_loader_case(rng, forced_policy=None):
                  "--override_arrival_period=%d" % rf["period"], "--override_num_invocation=%d" % rf["inv"],
                  "--unique_work_profiles=%s" % ("true" if rf["unique"] else "false"),
                  "--replication_factor=%d" % rf["repl"], "--override_slo=%d" % rf["slo"],
-                 "--min_deadline=%d" % rf["minb"], "--max_deadline=%d" % rf["maxb"],
+                 "--min_deadline=%d" % rf["minb"], "--max_deadline=%d" % rf["maxb"], "--loop_timeout=%d" % rf["timeout"],
                  "--random_seed=%d" % rng.randrange(2 ** 31)]
     return {"doc": doc, "fmt": rng.choice(["json", "yaml", "yaml"]), "flags": flags, "rf": rf, "names": JOBNAMES,
             "pnames": PNAMES, "gnames": GNAMES, "rnames": RNAMES, "rids": RIDS}
@@ -493,9 +506,10 @@ def g_dgraph(g):
 def g_rflags(rf):
     if rf is None:
         return "None"
-    return "(Some (mkRF %s %s %s %s %s %s %s %s %s))" % (
+    return "(Some (mkRF %s %s %s %s %s %s %s %s %s %s))" % (
         g_fl(fl_of_float(rf["rate"])), g_fl(fl_of_float(rf["coef"])), gz(rf["period"]), gz(rf["inv"]),
-        core.gbool(rf["unique"]), gz(rf["repl"]), gz(rf["slo"]), gz(rf["minb"]), gz(rf["maxb"]))
+        core.gbool(rf["unique"]), gz(rf["repl"]), gz(rf["slo"]), gz(rf["minb"]), gz(rf["maxb"]),
+        gz(rf.get("timeout", 2 ** 63 - 1)))
 
 
 def g_load_case(c, r):
@@ -540,10 +554,9 @@ def g_pools(doc):
 
 
 def is_periodic_finding(c):
-    """input signature of finding C19-periodic-loader: some graph of the document has release_policy periodic
-    (with a flags object the horizon handed to generate_task_graphs is a bare int -> AttributeError; without one it is
-    EventTime(sys.maxsize) -> numpy.arange over 2^63 us)"""
-    return any(g.get("release_policy") == "periodic" for g in c["doc"].get("graphs", []))
+    """documents outside the stream: a periodic graph loaded WITHOUT a flags object (the horizon is then
+    EventTime(sys.maxsize): numpy.arange over 2^63 us -> MemoryError; a usage limit, the model cannot enumerate it either)"""
+    return c["flags"] is None and any(g.get("release_policy") == "periodic" for g in c["doc"].get("graphs", []))
 
 
 def run(ctx):
@@ -559,8 +572,8 @@ def run(ctx):
     mark("build")
     quick = ctx.tier == "quick"
     rng = ctx.rng
-    n_rt = 1200 if quick else 12000
-    n_fl = 1000 if quick else 10000
+    n_rt = 900 if quick else 12000
+    n_fl = 800 if quick else 10000
 
     rt_cases = []
     for i in range(n_rt):
@@ -637,8 +650,8 @@ def run(ctx):
 
     mark("float+release-times")
     # ---------------- S-instantiate, S-closed-loop
-    n_inst = 600 if quick else 7000
-    n_cl = 400 if quick else 4000
+    n_inst = 450 if quick else 7000
+    n_cl = 300 if quick else 4000
     inst_cases = [gen_inst_case(rng) for _ in range(n_inst)]
     cl_cases = [gen_cl_case(rng) for _ in range(n_cl)]
     impl2 = core.run_impl("release.py", {"instantiate": inst_cases, "closed_loop": cl_cases})
@@ -722,8 +735,8 @@ def run(ctx):
 
     mark("instantiate+closed-loop")
     # ---------------- S-loader, S-worker-loader
-    n_ld = 400 if quick else 5000
-    n_wl = 150 if quick else 1500
+    n_ld = 320 if quick else 5000
+    n_wl = 120 if quick else 1500
     ld_cases = []
     while len(ld_cases) < n_ld:
         c = gen_loader_case(rng)
@@ -874,11 +887,13 @@ def run_monitors(ctx, rt_cases, rt_impl, inst_cases, inst_impl, cl_cases, cl_imp
         ("cl", "Z * Z * list bool", "(fun c => let '(k, n, l) := c in mon_closed_loop k n 0 0 l)",
          "closed loop: more than `concurrency` graphs in flight or more than N released"),
     ]
-    for key, ty, fn, what in specs:
-        if not mons[key]:
-            continue
+    from concurrent.futures import ThreadPoolExecutor
+    todo = [sp for sp in specs if mons[sp[0]]]
+    with ThreadPoolExecutor(max_workers=6) as ex:      # the six monitor evaluations are independent coqc runs
+        futs = {sp[0]: ex.submit(ctx.monitor_stream, "M-" + sp[0], HDR, sp[1], sp[2], mons[sp[0]]) for sp in todo}
+    for key, ty, fn, what in todo:
         try:
-            bad = ctx.monitor_stream("M-" + key, HDR, ty, fn, mons[key])
+            bad = futs[key].result()
         except core.ModelEvalError as e:
             ctx.broken.append({"kind": "monitor", "name": "M-" + key, "detail": str(e)[-600:]})
             continue
@@ -915,10 +930,12 @@ def run_corpus(ctx):
         ctx.violation("F7b", {"stream": "corpus", "document": f7b["case"]["doc"], "flags": f7b["case"]["flags"],
                               "first_run": a["draws"], "second_run": b["draws"], "what": "regression of F7b: " + f7b["what"]})
     # --- open findings: replayed, reported only while they still fail
-    if r["loader"][3]["res"] == per["expect_res"] and r["loader"][4]["res"][0] == 1:
-        ctx.known(per["id"], "WorkloadLoader cannot instantiate release_policy periodic: with flags AttributeError "
-                             "(int loop_timeout, workload_loader.py:77 -> jobs.py:277), without flags MemoryError "
-                             "(horizon sys.maxsize); witness corpus/C19/periodic_loader.json")
+    pr = r["loader"][3]["res"]
+    rel = [tg[1][0][1][0] for tg in pr[1][1][0][2][0]] if pr[0] == 0 else None
+    if rel != per["expect_release_us"]:
+        ctx.violation("periodic_loader", {"stream": "corpus", "document": per["case"]["doc"], "flags": per["case"]["flags"],
+                                          "implementation": pr, "expected_release_us": per["expect_release_us"],
+                                          "what": "regression of C19-periodic-loader: " + per["what"]})
     g = r["release_times"][0]["res"]
     if g[0] == 0 and g[1][0] == [5, 0]:
         ctx.known(gam["id"], "ReleasePolicy.gamma(start=5 ms) releases first at 5 us (jobs.py:324 reads start.time without "
